@@ -873,6 +873,95 @@ def r5b_renderer_indexes_stay_inside(ctx):
     ctx.floor("checked indexes in the diagnostics renderer", n, 2)
 
 
+def r5c_renderer_slices_run_forward(ctx):
+    """Every `src[a..b]` the renderer takes is cut between positions whose order the locator guarantees: line start (third
+    component of line_col_in) <= a span's start <= min(span end, line end) <= line end (fourth component).  All four are
+    `usize`, so a destructuring that exchanges two of them type-checks; the slice then runs backwards and the renderer
+    panics (`byte range starts at 20 but ends at 0`) instead of printing the diagnostic."""
+    n = 0
+
+    def rank(t):
+        t = t.replace(" ", "")
+        if re.search(r"^line_col_in\(.*\)\.2$", t):
+            return 0
+        if re.search(r"\.span\.start$", t):
+            return 1
+        if t.startswith("min(") and ".span.end" in t and re.search(r"line_col_in\(.*\)\.3\)$", t):
+            return 2
+        if re.search(r"^line_col_in\(.*\)\.3$", t):
+            return 3
+        return None
+
+    fn = ctx.need(DIAG + "render_diagnostic")
+    for g in [fn] + list(ctx.lib.closures_of(fn.id)):
+        for c in g.calls():
+            if not (c.callee or "").endswith("::index") or len(c.args) < 2:
+                continue
+            e = ne(g.deep(c.args[1], 10))
+            if not (isinstance(e, tuple) and e[0] == "agg" and "Range" in str(e[1]) and len(e[3]) == 2):
+                continue
+            n += 1
+            ctx.touch(g)
+            a, b = sh(e[3][0]), sh(e[3][1])
+            ra, rb = rank(a), rank(b)
+            ordn = sum(1 for r in ctx.records if r["rule"] == ctx.rule and r["instance"].startswith("renderer-slice#"))
+            if ra is not None and rb is not None and ra <= rb:
+                ctx.ok("renderer-slice#%d" % (ordn + 1), g.where(c.block), "%s .. %s" % (("line start", "span start", "min(span end, line end)", "line end")[ra], ("line start", "span start", "min(span end, line end)", "line end")[rb]))
+            else:
+                names = ("line start", "span start", "min(span end, line end)", "line end")
+                ctx.bad("renderer-slice|%s..%s" % (names[ra] if ra is not None else a[-20:], names[rb] if rb is not None else b[-20:]), g.where(c.block), "the renderer slices the source from `%s` to `%s`: these are not in the order the locator guarantees, the range runs backwards (or past the line) and slicing panics while a diagnostic is being prepared" % (a[-60:], b[-60:]))
+    ctx.floor("source slices taken by render_diagnostic", n, 6)
+
+
+def r13_type_pre_inference_runs_a_counted_number_of_rounds(ctx):
+    """Static checking terminates.  Return types feed each other through calls and their inference is not monotone (`return
+    g(n) na 1` / `return f(n)` alternate between bool and dynamic for ever), so the rounds of pre-inference must be counted -
+    every loop around a call of infer_function_return_type leaves through the exhaustion of an iterator, not only through a
+    `nothing changed` test."""
+    from .c03 import natural_loop
+    n = 0
+    for fid, fn in sorted(ctx.lib.fns.items()):
+        if fn.file != "src/resolver.rs":
+            continue
+        calls = [c for c in fn.calls() if (c.callee or "").endswith("Resolver::infer_function_return_type")]
+        if not calls:
+            continue
+        ctx.touch(fn)
+        for H in sorted(fn.live):
+            nl = natural_loop(fn, H)
+            if not nl or not any(c.block in nl for c in calls):
+                continue
+            n += 1
+            # exits of this loop: edges from a block in the loop to a block outside it
+            counted = False
+            for b in sorted(nl):
+                t = fn.blocks[b]["t"]
+                if t["k"] != "switch":
+                    continue
+                outs = [j for _lab, j in fn.succ[b] if j not in nl and set(fn.reach([j])) & set(fn.exits())]
+                if not outs:
+                    continue        # leaves only towards a panic / an unreachable arm
+                d = sh(ne(fn.deep(t["d"], 8)))
+                if re.search(r"\bnext\(", d):
+                    counted = True
+            key = "pre-inference|%s|loop@%s" % (parent_fn(fid).split("::")[-1], "outer" if len(nl) == max(len(natural_loop(fn, h)) for h in fn.live if natural_loop(fn, h) and any(c.block in natural_loop(fn, h) for c in calls)) else "inner")
+            if counted:
+                ctx.ok(key, fn.where(H), "leaves when its iterator is exhausted")
+            else:
+                ctx.bad(key + "|uncounted", fn.where(H), "%s repeats return-type inference until nothing changes, with no bound on the rounds: the inference is not monotone, so for mutually recursive functions whose types alternate the checker never terminates (and, allocating each round, ends in an abort)" % parent_fn(fid).split("::")[-1])
+    ctx.floor("loops around return-type pre-inference", n, 2)
+
+
+def r14_the_preflight_bounds_what_the_analyses_allocate(ctx):
+    """Static checking must not abort on a valid program of a few hundred kilobytes.  The analyses size their bit sets by
+    blocks x locals and are only started when the preflight's estimate of that work is below its cap; the estimate and the
+    allocation have to count in the same unit.  Shared with C18-R2b (shape of the derived bounds: (2 x blocks + ops) x
+    locals, locals counted as locals) and C18-R7 (bit sets sized in words of the count)."""
+    from .c18 import r2b_derived_bounds_shape, r7_bit_sets_are_sized_in_words
+    r2b_derived_bounds_shape(ctx)
+    r7_bit_sets_are_sized_in_words(ctx)
+
+
 def r10_front_end_memory_is_linear(ctx):
     """The arenas give nothing back until the stage ends, so anything the front end allocates per token or per diagnostic must
     be sized by that token / diagnostic - never by the whole text.  Two places where size times count meets the arena's
@@ -1056,7 +1145,7 @@ def r11_search_offsets_are_added_to_the_base_they_were_found_from(ctx):
     ctx.floor("search offsets turned into positions", n, 2)
 
 
-RULES = [("C07-R1", r1_cursor_discipline), ("C07-R2", r2_unchecked_reslicing), ("C07-R2b", r2b_byte_reads_in_bounds), ("C07-R2c", r2c_template_reads_in_bounds), ("C07-R5", r5_renderer_boundaries),
+RULES = [("C07-R1", r1_cursor_discipline), ("C07-R2", r2_unchecked_reslicing), ("C07-R2b", r2b_byte_reads_in_bounds), ("C07-R2c", r2c_template_reads_in_bounds), ("C07-R5", r5_renderer_boundaries), ("C07-R5c", r5c_renderer_slices_run_forward), ("C07-R13", r13_type_pre_inference_runs_a_counted_number_of_rounds), ("C07-R14", r14_the_preflight_bounds_what_the_analyses_allocate),
          ("C07-R3", r3_parser_position_free), ("C07-R3b", r3b_parser_spans_are_ordered), ("C07-R4", r4_recovery_progress), ("C07-R8", r8_local_ranges_cover_ids), ("C07-R9", r9_bitset_indexes_agree), ("C07-R5b", r5b_renderer_indexes_stay_inside), ("C07-R10", r10_front_end_memory_is_linear), ("C07-R12", r12_checker_indexes_follow_a_length_test), ("C07-R11", r11_search_offsets_are_added_to_the_base_they_were_found_from)]
 
 EXPLANATION = (
